@@ -160,6 +160,19 @@ func checkC17(c *Ctx, r *Report) {
 	}
 	r.Rule("C17-race", 6, "no conflicting access to state shared with a goroutine")
 	r.Rule("C17-done", 4, "exactly one final report, tied to the done channel")
+	nGo := raceRule(c, r, "C17-race", pkg, func(fn *ssa.Function, instr ssa.Instruction, g *ssa.Go, mc *ssa.MakeClosure) {
+		// C17-done for status reporters
+		doneRule(c, r, fn, instr, g, mc)
+	})
+	if nGo < 2 {
+		r.Fail("C17-race", "found %d go statements with closures in package fbb, expected the two status reporters", nGo)
+	}
+	r.NotCov = append(r.NotCov, "numeric range of BytesTransferred", "races inside the application's StatusUpdater or net.Conn implementation", "the *Proposal handed to UpdateStatus (escapes to the application)")
+}
+
+// raceRule (E4): for every go statement with a closure in pkg, the variables it captures are
+// compared access by access with what the spawner can still do after the go statement.
+func raceRule(c *Ctx, r *Report, rule, pkg string, each func(fn *ssa.Function, instr ssa.Instruction, g *ssa.Go, mc *ssa.MakeClosure)) int {
 	nGo := 0
 	for _, fn := range c.SrcFuncs(pkg) {
 		eachInstr(fn, func(_ *ssa.BasicBlock, _ int, instr ssa.Instruction) {
@@ -184,7 +197,7 @@ func checkC17(c *Ctx, r *Report) {
 				}
 				names = append(names, name)
 				elem := b.Type().Underlying().(*types.Pointer).Elem()
-				o := r.Add("C17-race", where, "go statement: shared variable "+name, c.pos(g.Pos()))
+				o := r.Add(rule, where, "go statement: shared variable "+name, c.pos(g.Pos()))
 				if exemptShared(elem) {
 					o.Triv("%s is a %s: safe for concurrent use by construction", name, types.TypeString(elem, func(p *types.Package) string { return p.Name() }))
 					continue
@@ -230,14 +243,12 @@ func checkC17(c *Ctx, r *Report) {
 					o.Bad("data race: %s", strings.Join(conflicts, "; "))
 				}
 			}
-			// C17-done for status reporters
-			doneRule(c, r, fn, instr, g, mc)
+			if each != nil {
+				each(fn, instr, g, mc)
+			}
 		})
 	}
-	if nGo < 2 {
-		r.Fail("C17-race", "found %d go statements with closures in package fbb, expected the two status reporters", nGo)
-	}
-	r.NotCov = append(r.NotCov, "numeric range of BytesTransferred", "races inside the application's StatusUpdater or net.Conn implementation", "the *Proposal handed to UpdateStatus (escapes to the application)")
+	return nGo
 }
 
 func doneRule(c *Ctx, r *Report, fn *ssa.Function, goInstr ssa.Instruction, g *ssa.Go, mc *ssa.MakeClosure) {
